@@ -17,11 +17,16 @@ import numpy as np
 from harness import core
 
 ID = 'C08'
-LEAN_MODULES = ['PydlVerif.Props.C08']
+LEAN_MODULES = ['PydlVerif.Props.C08', 'PydlVerif.Lemmas.BSplineRows', 'PydlVerif.Lemmas.BSplineValue',
+                'PydlVerif.Lemmas.BSplineKnots']
 P = 'PydlVerif.C08.'
 THEOREMS = [P + t for t in (
     'mkKnots_shape_partial', 'intrv_pointwise', 'intrv_bracket', 'intrv_mono', 'bsplvn_nonneg', 'bsplvn_sum_one',
-    'bsplvn_length', 'bsplvn_eq_coxDeBoorAt', 'bsplvn_eq_coxDeBoor', 'value_spec_partial', 'value_perm', 'mask_outside')]
+    'bsplvn_length', 'bsplvn_eq_coxDeBoorAt', 'bsplvn_eq_coxDeBoor', 'value_spec_partial', 'value_perm', 'mask_outside',
+    # extension round: RowsOf discharged, bridge to the executed BS.value, every breakpoint option, headline
+    'lowerUpper_spec', 'rowsOf_lowerUpper', 'lowerUpper_first_last', 'rowsOf_action', 'action_first_last',
+    'value_spec', 'value_perm_action', 'action_eq', 'value_eq', 'padBkpt_eq', 'padBkpt_shape', 'shortBkpt_facts',
+    'mkKnots_shape', 'splineAt_eq_coxDeBoorAt', 'splineAt_eq_coxDeBoor', 'value_is_spline')]
 RULE = ('cases = (data abscissae: uniform/random/clustered/duplicated/constant, sorted or shuffled, several scales) x '
         '(order 1..6) x (breakpoint option bkpt/placed/bkspace/nbkpts/everyn with values inside, at and outside the '
         'sensible range, bkspread) x (evaluation points: inside, exactly on knots, one ulp inside/outside both ends, '
@@ -428,6 +433,14 @@ def check_ctor(ctx, case, impl, model, model_rat=None):
             sig, what = 'knots:padding:' + opt, 'first/last breakpoint are not min/max of x with nord-1 knots beyond'
         elif opt == 'bkpt' and N != len(case['opts']['bkpt']) + 2 * (k - 1):
             sig, what = 'knots:padding:' + opt, 'not nord-1 extra knots on each side'
+        elif opt == 'bkpt':
+            # mkKnots_shape for an explicit sorted bkpt: first = min(bkpt[0], min x), last = max(bkpt[-1], max x),
+            # the interior breakpoints are the given ones
+            b = bf_(case['opts']['bkpt'])
+            if not (abs(t[k - 1] - min(b[0], x.min())) <= tol and abs(t[N - k] - max(b[-1], x.max())) <= tol
+                    and np.array_equal(t[k:N - k], b[1:-1])):
+                sig, what = 'knots:patching:' + opt, 'bkpt %s, data [%r, %r]: breakpoints %s' % (
+                    b.tolist(), x.min(), x.max(), t[k - 1:N - k + 1].tolist())
         elif opt == 'nbkpts' and N != max(2, case['opts']['nbkpts']) + 2 * (k - 1):
             sig, what = 'knots:count:' + opt, 'nbkpts breakpoints requested, %d knots' % N
     if sig:
@@ -488,10 +501,11 @@ def check_eval(ctx, case, impl, model, model_rat):
                 ctx.disagree('eval:' + key, case, {key: I[key]}, {key: M[key]})
                 return
         if I['action'] and I['indx'] == sorted(I['indx']):
-            # hypothesis RowsOf of value_spec_partial, on what the real action() returned for the sorted points
+            # RowsOf / action_first_last (proved for the model's action) re-checked on what the real action() returned:
+            # rows lower[i]..upper[i] = rows of interval i+k-1, an interval without a point has the empty range 0..-1
             for i, (lo_, up_) in enumerate(zip(I['lower'], I['upper'])):
                 rows = [p for p in range(len(I['indx'])) if lo_ <= p <= up_]
-                if rows != [p for p, v in enumerate(I['indx']) if v - k + 1 == i]:
+                if rows != [p for p, v in enumerate(I['indx']) if v - k + 1 == i] or (not rows and (lo_, up_) != (0, -1)):
                     ctx.disagree('hypothesis:RowsOf', case, {'lower': I['lower'], 'upper': I['upper']}, {'indx': I['indx']})
                     return
             ctx.count('eval:RowsOf-checked')
@@ -720,16 +734,26 @@ def replay(ctx, case):
 
 
 LEVEL_TEXT = ('Machine-checked Lean 4 theorems over an executable model of bspline.__init__/intrv/bsplvn/action/value, for all '
-              'knot vectors, orders, points and coefficient vectors over any ordered field: the interval search brackets every point '
-              'of the breakpoint range and never stops at an empty interior interval; the basis values are non-negative, sum to one '
-              'and ARE the Cox-de Boor B-splines of the knots (full de Boor triangle, proved); value() returns, in the caller order and '
-              'for every sorting permutation, sum_m bsplvn(x)[m]*coeff[indx(x)-k+1+m]; evaluation commutes with re-ordering; the mask is '
-              'False exactly outside the breakpoint range; the padding step yields a non-decreasing vector with nord-1 extra knots per side. '
+              'knot vectors, orders, points and coefficient vectors over any ordered field. Headline (value_is_spline, about the model '
+              'function BS.value that the driver executes - bridge value_eq by unfolding, valid for the Float and Rat runs too): for '
+              'points in any order and any sorting permutation, order k >= 1, >= 2k unmasked non-decreasing knots with t[k-1] < t[k], '
+              'value() succeeds, the mask is False exactly outside the breakpoint range and inside it y[p] = sum_j coeff[j]*B_{j,k}(x_p), '
+              'the Cox-de Boor B-spline of the knots (textbook coxDeBoor when x_p is not a breakpoint, its left limit there). Parts: the '
+              'interval search brackets every point and never stops at an empty interior interval; the basis values are >= 0, sum to one '
+              'and ARE the Cox-de Boor functions (full de Boor triangle); the uniq-based lower/upper of action() delimit exactly the rows '
+              'of each interval - first and last position, empty range 0..-1 for an interval without a point (rowsOf_action, '
+              'action_first_last: the former hypothesis RowsOf is now proved); evaluation commutes with re-ordering. Constructor '
+              '(mkKnots_shape, every option: sorted bkpt with min/max patching incl. the last-of-equal-maxima rule, placed, bkspace, nbkpts, '
+              'everyn with clipped subscripts): the knot vector is non-decreasing, has nord-1 extra knots per side and its breakpoints run '
+              'from min x to max x exactly (explicit bkpt: from min(bkpt[0], min x) to max(bkpt[-1], max x), interior unchanged). '
               'The model is tied to the repository on every run by I/O correspondence (bsplvn and all knot vectors bit-exact, indices and '
               'masks exact, values within 1e-9, an exact rational run of the same inputs) and by an independent oracle '
-              '(scipy BSpline, exact textbook recursion, partition of unity, knot-vector shape).')
-LEVEL_NOTE = ('Partial: value_spec_partial assumes that lower/upper delimit exactly the rows of each interval (RowsOf - the uniq bookkeeping '
-              'of action(); modelled, compared exactly and re-checked on the real output on every run, not proved); mkKnots_shape_partial '
-              'covers the padding step, the option-specific placement and min/max patching are modelled and compared bit-exactly, their '
-              'sortedness/coverage is checked by the oracle only. Theorems are over exact ordered fields: float rounding (dtype f storage, '
-              'np.dot summation order) is outside them. Trusted: Lean kernel, the hand-written model, argsort contract, scipy as oracle.')
+              '(scipy BSpline, exact textbook recursion, partition of unity, knot-vector shape, RowsOf on the real action() output).')
+LEVEL_NOTE = ('No _partial theorem is left (value_spec_partial / mkKnots_shape_partial are kept under their names as the general lemmas the '
+              'full theorems value_spec / mkKnots_shape use). Theorems are over exact ordered fields: float rounding (dtype f storage of the '
+              'knots - min x / max x are then covered to single-precision rounding only -, np.dot summation order) is outside them and '
+              'is covered by the bit-exact / tolerance correspondence and the oracle. Domain of mkKnots_shape (BkDomain): explicit bkpt / '
+              'placed sorted, bkpt with >= 2 entries, bkspace != 0, everyn > 0 with 2*everyn <= nx and sorted x, bkspread >= 0; outside it '
+              '(one breakpoint, unsorted input) the code is only compared with the model. At a breakpoint the value is the left limit of '
+              'the spline (right limit at the first breakpoint), equal to the textbook value unless the knot has multiplicity >= order. '
+              'Trusted: Lean kernel, the hand-written model, argsort contract, scipy as oracle.')
